@@ -11,6 +11,8 @@ namespace nmtools::index
     // since gcc has constexpr ceil while clang doesn't :|
     constexpr size_t ceil_(float num)
     {
+        // an empty range (numpy): a non-positive quotient must not be converted to size_t
+        if (!(num > 0)) return 0;
         return (static_cast<float>(static_cast<size_t>(num)) == num)
             ? static_cast<size_t>(num)
             : static_cast<size_t>(num) + ((num > 0) ? 1 : 0);
